@@ -1089,3 +1089,13 @@ Proof.
   - intros u Ht Hs. apply source_eq in Hs. pose proof (validate_binds R Rc _ _ _ _ _ H Ht Hs) as Hb.
     rewrite Hg in Hb. injection Hb as <-. destruct Hs as [Hs|Hs]; [apply (B k n Hs)|apply (A k n Hs)].
 Qed.
+
+(* 1 for every reachable state: any container, any history of record/add/render operations *)
+Lemma one_name_one_uuid_run c ops st st' : flows_have_uuid c -> Forall op_ok ops ->
+  run ops (init c) = Ok st -> validate st = Ok st' -> one_name_one_uuid_at st'.
+Proof.
+  intros Hfl Hops Hrun H. destruct (run_hist_inv ops (init c) st (hist_inv_init _ Hfl) Hops Hrun) as [Hwf Hfl'].
+  apply (one_name_one_uuid _ _ Hwf Hfl' H).
+Qed.
+
+Definition fresh_inv_now : state -> Prop := fresh_inv R Rc.
